@@ -32,6 +32,20 @@ theorem listOf_ofList (l : List Obj) : listOf (ofList l) = some l := by
   | nil => rfl
   | cons a l ih => simp [ofList, listOf, ih]
 
+/-- a parameter list without `&rest` is a list of required parameters -/
+theorem splitRest_plain (ps : List String) (h : "&rest" ∉ ps) : splitRest ps = some (ps, none) := by
+  induction ps with
+  | nil => rfl
+  | cons x xs ih =>
+    have hx : (x == "&rest") = false := by
+      simp only [beq_eq_false_iff_ne, ne_eq]; intro hx; exact h (by simp [hx])
+    have hxs : "&rest" ∉ xs := fun hm => h (List.mem_cons_of_mem _ hm)
+    simp [splitRest, hx, ih hxs]
+
+theorem bindArgs_plain (ps : List String) (args : List Obj) (h : ps.length = args.length) :
+    bindArgs ps none args = some (zipFrame ps args) := by
+  simp [bindArgs, h]
+
 theorem bindV_val (vs : List Obj) (σ : St) (k : List Obj → St → Res) : bindV (.val vs, σ) k = k vs σ := rfl
 
 theorem bindV_exit {o : Out} {σ : St} (k : List Obj → St → Res) (h : NotVal o) : bindV (o, σ) k = (o, σ) := by
